@@ -121,6 +121,8 @@ def main():
     ap.add_argument("--replay")
     ap.add_argument("--only", help="run only obligations whose name contains this")
     ap.add_argument("--no-evidence", action="store_true")
+    ap.add_argument("--stop-at-first", action="store_true",
+                    help="tools only (seeded-change regression): skip the remaining obligations once a replayed violation exists")
     a = ap.parse_args()
     prop = a.prop
     seed = int(os.environ.get("VERIF_SEED", "0") or 0)
@@ -197,6 +199,8 @@ def main():
             new_violations.append((rp, msg, v))
         res.pop("violations", None)
         results.append(res)
+        if a.stop_at_first and new_violations:
+            break
     wall = time.time() - t0
     if not a.no_evidence:
         write_evidence(prop, a.tier, seed, results, wall, len(new_violations), known_hits, inconclusive,
